@@ -155,8 +155,9 @@ def check(ctx):
                     stack.extend(children(x))
         return out
     for f in targets:
-        for e in walk_block(f.body):
-            if e.get("k") == "for" and re.search(r"\battrs\b", expr_text(e["iter"])):
+        from srclib import attribute_loops
+        for e in attribute_loops(f):
+            if True:
                 it = expr_text(e["iter"])
                 trunc = re.search(r"\.(take|skip|step_by|nth|last|first)\(", it)
                 ex = loop_exits(e["body"])
